@@ -201,3 +201,86 @@ def t_compare(t):
 
 
 KINDS.update({"compare": t_compare})
+
+
+# ---------------------------------------------------------------- C18: formula constructors
+def _formula_env():
+    import smt_encoding.constraints.connector_factory as cf
+    from smt_encoding.constraints.connector import Connector
+    from smt_encoding.constraints.function import Function, ExpressionReference, Sort
+    from smt_encoding.solver.solver_from_executable import translate_formula
+    return cf, Connector, Function, ExpressionReference, Sort, translate_formula
+
+
+def _ser(obj, env):
+    cf, Connector, Function, ExpressionReference, Sort, _ = env
+    if type(obj) == bool:
+        return "T" if obj else "F"
+    if type(obj) == int:
+        return "#%d" % obj
+    if type(obj) == ExpressionReference:
+        s = "b" if obj.type == Sort.boolean else "i"
+        return "(a %s %s%s)" % (obj.func.name, s, "".join(" " + _ser(a, env) for a in obj.arguments))
+    if type(obj) == Connector:
+        return "(c %s%s)" % (obj.connector_name, "".join(" " + _ser(a, env) for a in obj.arguments))
+    raise TypeError("unexpected formula object %r" % (obj,))
+
+
+def _build(raw, env):
+    """raw: nested lists ['c', name, args...] | ['a', name, sort, args...] | True/False | int"""
+    cf, Connector, Function, ExpressionReference, Sort, _ = env
+    if isinstance(raw, (bool, int)):
+        return raw
+    if raw[0] == "a":
+        _, name, sort, *args = raw
+        bargs = [_build(a, env) for a in args]
+        doms = [Sort.boolean if type(a) == bool else Sort.integer if type(a) == int else a.type for a in bargs]
+        f = Function(name, *doms, Sort.boolean if sort == "b" else Sort.integer)
+        return f(*bargs)
+    _, name, *args = raw
+    bargs = [_build(a, env) for a in args]
+    fn = {"and": cf.add_and, "or": cf.add_or, "not": cf.add_not, "=>": cf.add_implies, "=": cf.add_eq,
+          "<": cf.add_lt, "<=": cf.add_leq, "distinct": cf.add_distinct}[name]
+    return fn(*bargs)
+
+
+def _raw_ser(raw):
+    if isinstance(raw, bool):
+        return "T" if raw else "F"
+    if isinstance(raw, int):
+        return "#%d" % raw
+    if raw[0] == "a":
+        return "(a %s %s%s)" % (raw[1], raw[2], "".join(" " + _raw_ser(a) for a in raw[3:]))
+    return "(c %s%s)" % (raw[1], "".join(" " + _raw_ser(a) for a in raw[2:]))
+
+
+def t_formulas(t):
+    """build raw trees through the real add_* interface; report structure, rendering, and == on pairs"""
+    env = _formula_env()
+    tf = env[5]
+    rows, objs = [], []
+    for raw in t["trees"]:
+        rs = _raw_ser(raw)
+        try:
+            obj = _build(raw, env)
+            rows.append([rs, _ser(obj, env), tf(obj), None])
+            objs.append(obj)
+        except AssertionError as ex:
+            rows.append([rs, "RAISE", "", "AssertionError"])
+            objs.append(None)
+        except Exception as ex:
+            rows.append([rs, "RAISE", "", "%s: %s" % (type(ex).__name__, ex)])
+            objs.append(None)
+    eqs = []
+    for i, j in t.get("pairs", []):
+        a, b = objs[i], objs[j]
+        if a is None or b is None or isinstance(a, (bool, int)) or isinstance(b, (bool, int)):
+            continue
+        try:
+            eqs.append([rows[i][1], rows[j][1], 1 if a == b else 0, None])
+        except Exception as ex:
+            eqs.append([rows[i][1], rows[j][1], None, "%s: %s" % (type(ex).__name__, ex)])
+    return {"rows": rows, "eqs": eqs}
+
+
+KINDS.update({"formulas": t_formulas})
